@@ -371,9 +371,11 @@ class Runner:
 
     def classify(self, trigger, insts=()):
         """Root-cause class decided on the INPUT: the history made the library store as many distinct scripts as Django's default
-        MAX_ENTRIES without a clear() in between (a size-bounded LocMemCache culls its least recently used third then)."""
+        MAX_ENTRIES without a clear() in between AND the cache object under test is bounded by no more than that (a size-bounded
+        LocMemCache culls its least recently used third then)."""
         stored = self.stored_since_clear | set(key_of(*t) for t in self.entitlements(insts))
-        return "c19-media-cache-culled" if len(stored) >= CULL_THRESHOLD else trigger
+        bound = getattr(self.cache, "_max_entries", None)      # configuration of the cache object under test (not an outcome)
+        return "c19-media-cache-culled" if len(stored) >= CULL_THRESHOLD and isinstance(bound, int) and bound <= len(stored) else trigger
 
     def since(self, path_info):
         t = self.first_cached_at.get(path_info)
